@@ -10,6 +10,7 @@ answered with `bad-op <why>` — never with a default.
 -/
 import DC.Model.Cache
 import DC.Model.Check
+import DC.Model.Memo
 
 open DC
 
@@ -332,8 +333,70 @@ def answerCk (kv : KV) : String :=
     let (st', ws) := Check.check (parseBool (kv.getD "fix" "0")) st
     "ck " ++ ",".intercalate (ws.map renderWarn) ++ " | " ++ renderCkState st'
 
+
+/-! ### `args_to_key` protocol -/
+
+def parseTok (s : String) : Option Memo.Tok :=
+  if s == "N" then some .none
+  else if s.front == 'V' then (s.drop 1).toString.toNat?.map .val
+  else if s.front == 'T' then (s.drop 1).toString.toNat?.map .ty
+  else none
+
+def renderTok : Memo.Tok → String
+  | .none => "N"
+  | .val v => s!"V{v}"
+  | .ty t => s!"T{t}"
+
+def parseArg (s : String) : Option Memo.Arg :=
+  match s.splitOn ":" with
+  | [a, b] => do
+    let t ← parseTok a
+    let ty ← b.toNat?
+    pure { tok := t, ty := ty }
+  | _ => none
+
+def answerMk (kv : KV) : String :=
+  let r : Option String := do
+    let base ← (splitList (kv.getD "base" "-") ",").mapM parseTok
+    let args ← (splitList (kv.getD "args" "-") ",").mapM parseArg
+    let kw ← (splitList (kv.getD "kw" "-") ",").mapM (fun t => match t.splitOn ":" with
+      | [n, a, b] => do
+        let n ← n.toNat?
+        let arg ← parseArg (a ++ ":" ++ b)
+        pure (n, arg)
+      | _ => none)
+    let ignp ← parseNats (kv.getD "ignp" "-") ","
+    let ignk ← parseNats (kv.getD "ignk" "-") ","
+    pure (",".intercalate ((Memo.argsToKey base args kw (parseBool (kv.getD "typed" "0")) ignp ignk).map renderTok))
+  match r with
+  | some s => "mk " ++ s
+  | none => "bad-op mk"
+
+
+def answerMc (st : Memo.Store Nat) (kv : KV) : Memo.Store Nat × String :=
+  let r : Option (Memo.Store Nat × String) := do
+    let base ← (splitList (kv.getD "base" "-") ",").mapM parseTok
+    let args ← (splitList (kv.getD "args" "-") ",").mapM parseArg
+    let kw ← (splitList (kv.getD "kw" "-") ",").mapM (fun t => match t.splitOn ":" with
+      | [n, a, b] => do
+        let n ← n.toNat?
+        let arg ← parseArg (a ++ ":" ++ b)
+        pure (n, arg)
+      | _ => none)
+    let ignp ← parseNats (kv.getD "ignp" "-") ","
+    let ignk ← parseNats (kv.getD "ignk" "-") ","
+    let res ← (kv.getD "res" "0").toNat?
+    let now ← (kv.getD "now" "0").toInt?
+    let expire ← parseOptInt (kv.getD "expire" "n")
+    let (r, st', ran) := Memo.call (fun _ _ => res) base (parseBool (kv.getD "typed" "0")) ignp ignk expire now st args kw
+    pure (st', s!"mc {r} {if ran then 1 else 0}")
+  match r with
+  | some x => x
+  | none => (st, "bad-op mc")
+
 structure DState where
   cache : Cache := {}
+  memo : Memo.Store Nat := []
   deriving Inhabited
 
 def answer (st : DState) (line : String) : DState × String :=
@@ -353,6 +416,9 @@ def answer (st : DState) (line : String) : DState × String :=
        "ret " ++ renderOut out ++ " | " ++ renderTrace c.trace ++ (if c.envMiss then " | env-missing" else ""))
     | .error e => (st, "bad-op " ++ e)
   | ("ck", _) :: rest => (st, answerCk rest)
+  | ("mk", _) :: rest => (st, answerMk rest)
+  | ("mc", _) :: rest => let (m, a) := answerMc st.memo rest; ({ st with memo := m }, a)
+  | ("mreset", _) :: _ => ({ st with memo := [] }, "ok")
   | _ => (st, "bad-op line")
 
 partial def loop (h : IO.FS.Stream) (out : IO.FS.Stream) (st : DState) : IO Unit := do
